@@ -117,7 +117,7 @@ def _num(key, k, params):
         return False, "frequencies undefined"
     F = sorted(float(f) for f in F[k])
     # sample on a grid over a window of length T = 2*pi*Q where all declared frequencies * Q are integers (Q <= 8)
-    Q = next((q for q in range(1, 9) if all(abs(f * q - round(f * q)) < 1e-9 for f in F)), None) if F else 1
+    Q = next((q for q in range(1, 9) if all(abs(f * q - round(f * q)) < 1e-4 for f in F)), None) if F else 1
     if Q is None:
         return False, f"declared frequencies {F} not commensurate (replay by FFT impossible)"
     N = 64 * Q
@@ -128,7 +128,19 @@ def _num(key, k, params):
         p[k] = t
         mats.append(np.asarray(qp.matrix(fn(p, list(range(nw))), wire_order=list(range(nw))), dtype=complex))
     mats = np.array(mats)
-    nz = [(a, b) for a in range(mats.shape[1]) for b in range(mats.shape[2]) if np.max(np.abs(mats[:, a, b])) > 1e-9][:10]
+    # like the symbolic side: the distinct parameter-dependent entries, plus one constant entry
+    nz, sigs, const = [], [], None
+    for a in range(mats.shape[1]):
+        for b in range(mats.shape[2]):
+            col = mats[:, a, b]
+            if np.max(np.abs(col)) <= 1e-9:
+                continue
+            if np.max(np.abs(col - col[0])) < 1e-9:
+                const = const or (a, b)
+            elif not any(np.max(np.abs(col - s_)) < 1e-9 for s_ in sigs):
+                sigs.append(col)
+                nz.append((a, b))
+    nz = nz[:10] + ([const] if const else [])
     allowed = {round(f * Q) for f in F} | {0}
     worst, where = 0.0, None
     for (a, b), (c, d) in itertools.product(nz, repeat=2):
